@@ -150,24 +150,16 @@ Theorem C16_tweaked_priv_matches_output_key :
 Proof. exact tweaked_priv_matches_output_key. Qed.
 Print Assumptions C16_tweaked_priv_matches_output_key.
 
-(* "tweaking leaves the caller's key unchanged" — full statement:
-     forall pk_odd pkx d root, 0 <= d < tap_n -> snd (tweak_priv pk_odd pkx d root) = d
-   REFUTED by the code as it is (TweakTaprootPrivKey works in place on the caller's scalar):
-   the caller's key always ends up holding the tweaked key. *)
-Theorem C16_tweak_preserves_caller_key_refuted :
-  exists pk_odd pkx d root, (0 <= d < tap_n)%Z /\ snd (tweak_priv pk_odd pkx d root) <> d.
-Proof. exact tweak_preserves_caller_key_refuted. Qed.
-Print Assumptions C16_tweak_preserves_caller_key_refuted.
+(* tweaking leaves the caller's key unchanged (second component = the caller's scalar after
+   the call): every tweak function, either parity, every key and root; and at curve level *)
+Theorem C16_tweak_preserves_caller_key : forall TS pk_odd pkx d root,
+  snd (tweak_priv_with TS pk_odd pkx d root) = d.
+Proof. exact tweak_preserves_caller_key. Qed.
+Print Assumptions C16_tweak_preserves_caller_key.
 
-Theorem C16_tweak_overwrites_caller_key :
+Theorem C16_tweak_ec_preserves_caller_key :
   forall (point : Type) (mulG : Z -> point) (xonly : point -> bytes) (odd_y : point -> bool)
     (TS : bytes -> bytes -> Z) d root,
-  snd (tweak_priv_ec point mulG xonly odd_y TS d root) = fst (tweak_priv_ec point mulG xonly odd_y TS d root).
-Proof. exact tweak_overwrites_caller_key. Qed.
-Print Assumptions C16_tweak_overwrites_caller_key.
-
-(* what remains true: even public key and a zero tweak *)
-Theorem C16_tweak_preserves_caller_key_partial : forall TS pkx d root,
-  (0 <= d < tap_n)%Z -> TS pkx root = 0%Z -> snd (tweak_priv_with TS false pkx d root) = d.
-Proof. exact tweak_preserves_caller_key_partial. Qed.
-Print Assumptions C16_tweak_preserves_caller_key_partial.
+  snd (tweak_priv_ec point mulG xonly odd_y TS d root) = d.
+Proof. exact tweak_ec_preserves_caller_key. Qed.
+Print Assumptions C16_tweak_ec_preserves_caller_key.
